@@ -953,14 +953,12 @@ func (client *client) subscribeHandler(sub *packets.Subscribe) *codes.Error {
 			sub.ID = subReq.ID
 		}
 		subErr := converError(subReq.Subscriptions[v.Name].Error)
-		var isShared bool
+		// $share/{ShareName}/{filter} is a shared subscription whatever the protocol version of the client is.
+		isShared := sub.ShareName != ""
 		code := sub.QoS
 		if client.version == packets.Version5 {
-			if sub.ShareName != "" {
-				isShared = true
-				if !client.opts.SharedSubAvailable {
-					code = codes.SharedSubNotSupported
-				}
+			if isShared && !client.opts.SharedSubAvailable {
+				code = codes.SharedSubNotSupported
 			}
 			if !client.opts.SubIDAvailable && subID != 0 {
 				code = codes.SubIDNotSupported
